@@ -32,6 +32,34 @@ type Router struct {
 	Lang       string  `json:"lang"`             // contact language
 	Draw       uint64  `json:"draw,omitempty"`   // random routers: the draw is Draw / 2^53
 	Scheme     string  `json:"scheme,omitempty"` // label of the structural scheme (for keys)
+	// LangVia says how the contact came to have the language Lang when the router is reached: "" = the
+	// trigger's contact has it; otherwise the trigger's contact has the other language, the run first
+	// sends a message (so it has localized something under the old language) and then the language is
+	// set to Lang by "action" = a set_contact_language action of this run on a node before the router, or
+	// "child" = the same action executed by a child run that a node before the router enters.
+	LangVia string `json:"lang_via,omitempty"`
+	// Revisit: every exit's node leads back to the router (which waits for a message), and the router
+	// is routed again with each of these message texts in turn, after the first routing with
+	// Operand.Input - all in one run of one live session, so the same result name is saved repeatedly.
+	Revisit []string `json:"revisit,omitempty"`
+}
+
+// visit returns the router as it is routed on visit v (0 = first): the same definition with the
+// message text of that visit.
+func (r *Router) visit(v int) *Router {
+	if v == 0 {
+		return r
+	}
+	c := *r
+	c.Operand.Input = r.Revisit[v-1]
+	return &c
+}
+
+func otherLang(l string) string {
+	if l == langTr {
+		return langBase
+	}
+	return langTr
 }
 
 // Cat is a router category.
